@@ -26,7 +26,7 @@ type X86B = axcut2x86_64::Backend;
 type A64B = axcut2aarch64::Backend;
 type RvB = axcut2rv64::Backend;
 
-fn par_run<C: Send + Sync + 'static>(cases: Vec<C>, f: impl Fn(&C) -> Result<(), Failure> + Send + Sync + 'static) -> (u64, Vec<Failure>) {
+fn par_run<C: Send + Sync + std::fmt::Debug + 'static>(cases: Vec<C>, f: impl Fn(&C) -> Result<(), Failure> + Send + Sync + 'static) -> (u64, Vec<Failure>) {
     let n = std::thread::available_parallelism().map(|x| x.get()).unwrap_or(4).min(16);
     let cases = Arc::new(cases);
     let next = Arc::new(AtomicU64::new(0));
@@ -50,7 +50,7 @@ fn par_run<C: Send + Sync + 'static>(cases: Vec<C>, f: impl Fn(&C) -> Result<(),
                 Ok(Err(e)) => fails.lock().unwrap().push(e),
                 Err(p) => {
                     let msg = p.downcast_ref::<String>().cloned().or_else(|| p.downcast_ref::<&str>().map(|s| s.to_string())).unwrap_or_default();
-                    fails.lock().unwrap().push(Failure { what: format!("the code generator panicked: {msg}"), input: format!("case #{i}"), instructions: vec![], detail: String::new() })
+                    fails.lock().unwrap().push(Failure { what: format!("the code generator panicked: {msg}"), input: { let mut d = format!("case #{i}: {:?}", cases[i]); d.truncate(4000); d }, instructions: vec![], detail: String::new() })
                 }
             }
         }));
